@@ -98,6 +98,7 @@ struct Actor {
     prio: u64,
     /// drop this actor right after its k-th poll returned Pending
     drop_after_polls: Option<u32>,
+    suspended: bool,
 }
 
 pub enum What {
@@ -108,6 +109,10 @@ pub enum What {
     Do(Box<dyn FnOnce(&Arc<World>) + Send>),
     /// keeps the simulation alive until this instant
     Nop,
+    /// the actor is not polled until `Resume` even when woken: a future may legally be polled
+    /// arbitrarily late (busy executor, caller doing something else)
+    Suspend(usize),
+    Resume(usize),
     /// let this much virtual time pass before anybody is polled again (used with the logical
     /// clock, where busy-waking actors would otherwise keep the runtime from ever going idle)
     Advance(Us),
@@ -208,6 +213,7 @@ impl Sim {
             polls: 0,
             prio,
             drop_after_polls: None,
+            suspended: false,
         });
         self.actors.len() - 1
     }
@@ -257,6 +263,8 @@ impl Sim {
             What::OpenGate(g) => self.w.open_gate(g),
             What::Do(f) => f(&self.w),
             What::Nop => {}
+            What::Suspend(i) => self.actors[i].suspended = true,
+            What::Resume(i) => self.actors[i].suspended = false,
             What::Advance(d) => {
                 let until = self.w.now() + d;
                 self.sleeping_until = Some(self.sleeping_until.map_or(until, |u| u.max(until)));
@@ -350,12 +358,12 @@ impl Sim {
                 }
                 // runnable set
                 let mut runnable: Vec<usize> = (0..self.actors.len())
-                    .filter(|&i| self.actors[i].state == ActorState::Running && self.actors[i].flag.woken.load(Ordering::SeqCst))
+                    .filter(|&i| self.actors[i].state == ActorState::Running && !self.actors[i].suspended && self.actors[i].flag.woken.load(Ordering::SeqCst))
                     .collect();
                 let mut spurious = false;
                 if self.p_spurious > 0.0 && self.rng.chance(self.p_spurious) {
                     let idle: Vec<usize> = (0..self.actors.len())
-                        .filter(|&i| self.actors[i].state == ActorState::Running && !self.actors[i].flag.woken.load(Ordering::SeqCst))
+                        .filter(|&i| self.actors[i].state == ActorState::Running && !self.actors[i].suspended && !self.actors[i].flag.woken.load(Ordering::SeqCst))
                         .collect();
                     if !idle.is_empty() {
                         let i = *self.rng.pick(&idle);
